@@ -146,13 +146,16 @@ func c20Case(c *Ctx, i int64) {
 	mode := []os.FileMode{0o600, 0o644, 0o755, 0o664, 0o666, 0o777, 0o640}[(k/11)%7]
 	umask := []string{"022", "0"}[(k/13)%2]
 	useStdio := (k/17)%4 == 3
+	// file names: the usual one, names that end in a character of ".lz4", a name that already carries the
+	// suffix, a space, upper case, one letter, non-ASCII
+	fname := []string{"f.dat", "shell", "f.dat", "quiz", "track4", "f.dat", "dot.", "archive.lz4", "with space.txt", "UPPER.LZ4", "x", "f.dat", "\u00fcn\u00ef.bin", "l", "4z.l4z"}[(k/3)%15]
 	dir, err := os.MkdirTemp(".", fmt.Sprintf("c20-%d-", i))
 	if err != nil {
 		fatal("mkdir: %v", err)
 	}
 	defer os.RemoveAll(dir)
 	det := func() map[string]interface{} {
-		return map[string]interface{}{"flags": strings.Join(fl.args(), " "), "file_len": len(data), "mode": fmt.Sprintf("%o", mode), "umask": umask, "stdio": useStdio}
+		return map[string]interface{}{"flags": strings.Join(fl.args(), " "), "file_len": len(data), "mode": fmt.Sprintf("%o", mode), "umask": umask, "stdio": useStdio, "file_name": fname}
 	}
 	// what the library Writer emits for the same data and the options the flags announce
 	lvl := lz4.Fast
@@ -183,7 +186,7 @@ func c20Case(c *Ctx, i int64) {
 		}
 		z = out
 	} else {
-		fn := filepath.Join(dir, "f.dat")
+		fn := filepath.Join(dir, fname)
 		if err := os.WriteFile(fn, data, mode); err != nil {
 			fatal("write: %v", err)
 		}
@@ -193,10 +196,10 @@ func c20Case(c *Ctx, i int64) {
 			// an older, longer output file is in the way (re-running the tool on the same file)
 			os.WriteFile(fn+".lz4", bytes.Repeat([]byte("stale output "), len(data)/8+200), mode)
 		}
-		out, se, code, err := c20Run(dir, umask, nil, append(append([]string{"compress"}, fl.args()...), "f.dat")...)
+		out, se, code, err := c20Run(dir, umask, nil, append(append([]string{"compress"}, fl.args()...), fname)...)
 		zb, rerr := os.ReadFile(fn + ".lz4")
 		if err != nil || code != 0 || rerr != nil {
-			c.Violation("compress-failed/file", fmt.Sprintf("lz4c compress %v f.dat: exit %d, err %v, .lz4 readable: %v, stdout %q stderr %q", fl.args(), code, err, rerr == nil, head(out, 200), head(se, 200)), det())
+			c.Violation("compress-failed/file", fmt.Sprintf("lz4c compress %v %q: exit %d, err %v, .lz4 readable: %v, stdout %q stderr %q", fl.args(), fname, code, err, rerr == nil, head(out, 200), head(se, 200)), det())
 			return
 		}
 		z = zb
@@ -248,7 +251,7 @@ func c20Case(c *Ctx, i int64) {
 			c.Violation("roundtrip-failed/stdio", fmt.Sprintf("lz4c uncompress < out.lz4: exit %d err %v, %d bytes (want %d), stderr %q", code, err, len(out), len(data), head(se, 200)), det())
 		}
 	} else {
-		fn := filepath.Join(dir, "f.dat")
+		fn := filepath.Join(dir, fname)
 		os.Remove(fn)
 		if k%5 == 3 {
 			// the original (or an older, longer version of it) is still there when uncompressing
@@ -263,10 +266,10 @@ func c20Case(c *Ctx, i int64) {
 			os.Chmod(fn, pm)
 			c.Count("preexisting_output_cases", 1)
 		}
-		out, se, code, err := c20Run(dir, umask, nil, "uncompress", "f.dat.lz4")
+		out, se, code, err := c20Run(dir, umask, nil, "uncompress", fname+".lz4")
 		got, rerr := os.ReadFile(fn)
 		if err != nil || code != 0 || rerr != nil || !bytes.Equal(got, data) {
-			c.Violation("roundtrip-failed/file", fmt.Sprintf("lz4c uncompress f.dat.lz4: exit %d err %v, restored %d bytes (want %d), stdout %q stderr %q", code, err, len(got), len(data), head(out, 200), head(se, 200)), det())
+			c.Violation("roundtrip-failed/file", fmt.Sprintf("lz4c uncompress %q: exit %d err %v, restored %d bytes under the original name (want %d), stdout %q stderr %q", fname+".lz4", code, err, len(got), len(data), head(out, 200), head(se, 200)), det())
 		} else if st, err := os.Stat(fn); err == nil && st.Mode().Perm() != mode.Perm() {
 			c.Violation("mode-bits/restored-file", fmt.Sprintf("original mode %o, restored file has %o (umask %s)", mode.Perm(), st.Mode().Perm(), umask), det())
 		}
